@@ -570,7 +570,8 @@ class Check(PropertyCheck):
                   "same method, URL, request fields apart from Content-Length, request body (POST/PUT/PATCH), status, response "
                   "fields, decoded response body and HTTP version, provided each flow passes a decidable guard with one conjunct "
                   "per recorded defect class (F-C41a..h); the unguarded statement is refuted in Lean on concrete flows "
-                  "(import_export_preserves_counterexample*). infer_header_charset / infer_no_sniff / gRespText_of_roundtrip / "
+                  "(import_export_preserves_counterexample*: one refutation per guard conjunct - version, coding, length, host, and since round 6 "
+                  "connect, urlparse, reqtext, resptext - so every conjunct of the guard is individually necessary). infer_header_charset / infer_no_sniff / gRespText_of_roundtrip / "
                   "gReqText_of_roundtrip / mostlyBin_printable reduce the text conjuncts of the guard to input properties plus a "
                   "codec round trip on the body; urlHostport_getter / urlPretty_getter / url_guards_of_getter turn the URL and Host "
                   "conjuncts (F-C41c/d) into theorems for every flow whose URL is scheme://host[:port]/path with http/https, a lower-case "
@@ -599,6 +600,12 @@ class Check(PropertyCheck):
                   "senc(sdec b)=b, ASCII fixed, method upper/encode round trip, b64decode(b64encode b)=b, json.loads(json.dumps x)=x. "
                   "Their answers are passed per case from the real functions (driver reports lib-miss if it needs an answer it was "
                   "not given; ASCII cases of sdec/senc/lower/strip/utf8 are computed by the driver). "
+                  "The model's list functions roundtrip/importAll are executed on the whole list of every multi-flow case (driver op rtl: all "
+                  "imported flows in order, or `fail` when one entry fails - as FlowReader loses the whole file), single flows by op rt. "
+                  "The theorems' comparison `same` is EXACT on header field names, spelling and order; the oracle asks less of the code - it "
+                  "compares header names case-folded (HTTP field names are case-insensitive) and request fields apart from Content-Length - so "
+                  "`same` is the model's (stronger) conclusion, not the oracle's comparison; the exact spelling/order of the real imported "
+                  "headers is nevertheless compared with the model by the tie. "
                   "Routes: every case is exported by the real save.har command (export_har) to a FILE and read back with "
                   "read_flows_from_paths (the statement's route), additionally through make_har/json.dumps/FlowReader in memory (@mem, the "
                   "route the model tie uses: the file serialisation itself - json.dumps/loads and the UTF-8 file encoding - is the Json "
@@ -681,13 +688,17 @@ class Check(PropertyCheck):
         except Exception as e:
             return {"orig": orig, "stage": "export-failed", "err": type(e).__name__, "tie": None, "guards": guards, "refs": refs}
         # per-entry view for the model tie: the HAR entry written and the flow request_to_flow makes of it
-        tie = []
+        tie = []; imported = []
         for e in json.loads(data)["log"]["entries"]:
             reset_cache()
             try: i = raw_view(request_to_flow(e))
             except Exception: i = "fail"
             fl = flows[len(tie)]
+            imported.append(i)
             tie.append(f"E {entry_view(e)} I {i} G {bits_str(guards[len(tie)])} P {predictions(fl)}")
+        if len(flows) >= 2:
+            # the whole list through the model's `roundtrip`/`importAll` (driver op rtl): all flows in order, or the file is lost
+            tie.append("L fail" if "fail" in imported else f"L {len(imported)} " + " / ".join(imported))
         def read(fn):
             reset_cache()
             try:
@@ -729,7 +740,10 @@ class Check(PropertyCheck):
     def model_lines(self, case):
         if case.get("kind") == "hostfn":
             return [self.hostfn(unhx(case["text_hex"]).decode("utf-8", "surrogatepass"))[1]]
-        return [flow_line(build_flow(fc)) for fc in case["flows"]]
+        lines = [flow_line(build_flow(fc)) for fc in case["flows"]]
+        if len(lines) >= 2:
+            lines.append("rtl " + " ".join(l[3:] for l in lines))
+        return lines
 
     def model_obs(self, case, replies):
         return list(replies)
